@@ -190,7 +190,8 @@ def fixed_replay(ctx, tabs, thorough):
 # ------------------------------------------------------------------ adaptive: traces + numeric verdicts
 FAMILIES = {
     "decay": dict(f=lambda t, y, a: -a * y, sol=lambda t, y0, a, t0: y0 * torch.exp(-a * (t - t0)), L=1.5, a=1.5, y0=[1.0, -0.5]),
-    "growcos": dict(f=lambda t, y, a: a * torch.cos(t) * y, sol=lambda t, y0, a, t0: y0 * torch.exp(a * (torch.sin(t) - math.sin(t0))), L=0.8, a=0.8, y0=[0.7]),
+    # explicit time dependence without any symmetry in t (an even or odd coefficient hides a wrong sign of t on decreasing grids)
+    "growcos": dict(f=lambda t, y, a: a * torch.cos(t + 0.4) * y, sol=lambda t, y0, a, t0: y0 * torch.exp(a * (torch.sin(t + 0.4) - math.sin(t0 + 0.4))), L=0.8, a=0.8, y0=[0.7]),
     "logistic": dict(f=lambda t, y, a: a * y * (1 - y), sol=lambda t, y0, a, t0: 1 / (1 + (1 / y0 - 1) * torch.exp(-a * (t - t0))), L=2.0, a=2.0, y0=[0.2, 0.6]),
     "oscillator": dict(f=lambda t, y, a: torch.stack([y[1], -a * a * y[0]]),
                        sol=lambda t, y0, a, t0: torch.stack([y0[0] * math.cos(a * (t - t0)) + y0[1] / a * math.sin(a * (t - t0)),
@@ -209,7 +210,8 @@ def rk_step_ref(func, t0, y0, f0, h, A, B, C):
 
 
 class TrySink(object):
-    def __init__(self, ts_internal):
+    def __init__(self, ts_internal, ref_func=None):
+        self.ref_func = ref_func      # the user's right-hand side in the solver's internal time (written by the harness, not taken from the solver)
         self.ev = []
         self.tsi = ts_internal
         self.naccept = 0
@@ -232,7 +234,7 @@ class TrySink(object):
             grow = "down" if h_out < hstep else ("same" if h_out == hstep else "up")
             fac_ok = h_out >= hstep * sol.min_factor * (1 - 1e-12)
         # every trial is one step of the declared scheme from (t0, y0) with first stage f(t0, y0) (FSAL re-use must be the true derivative)
-        func = sol.func
+        func = self.ref_func if self.ref_func is not None else sol.func
         with torch.no_grad():
             f_true = func(f["t0"], f["y0"])
             y_ref = rk_step_ref(func, f["t0"], f["y0"], f_true, f["hstep"], sol.A.tolist(), sol.B.tolist(), sol.C.tolist())
@@ -252,7 +254,8 @@ def adaptive_case(tid, method, fam, gridname, atol, rtol):
     y0 = torch.tensor(F["y0"], dtype=DT)
     a = torch.tensor(F["a"], dtype=DT)
     tsi = [float(x) for x in (ts if ts[1] > ts[0] else -ts)]
-    sink = TrySink(tsi)
+    sgn = 1.0 if ts[1] > ts[0] else -1.0
+    sink = TrySink(tsi, lambda t, y: sgn * F["f"](sgn * t, y.reshape(y0.shape), a).reshape(-1))
     vh.set_sink(sink)
     exc = None
     try:
